@@ -930,7 +930,7 @@ def replace_dict_numeric_string_keys(dict_to_change):
 			# Change key.
 			new_key = float(old_key)
 			if is_integer(new_key):
-				new_key = int(old_key)
+				new_key = int(new_key)
 		else:
 			new_key = old_key
 		# Add item to dict.
